@@ -267,6 +267,11 @@ class SpecialOperand(Operand):
                 if register not in REGISTERS:
                     raise OperandTypeError("[{}] unknown register".format(register))
 
+                if register == self.instruction.mnemonic[-1]:
+                    raise OperandTypeError("[{}] cannot be used with its own stack pointer".format(
+                        self.instruction.mnemonic
+                    ))
+
                 post_byte |= 0x06 if register == "D" else 0x00
                 post_byte |= 0x01 if register == "CC" else 0x00
                 post_byte |= 0x02 if register == "A" else 0x00
@@ -274,7 +279,7 @@ class SpecialOperand(Operand):
                 post_byte |= 0x08 if register == "DP" else 0x00
                 post_byte |= 0x10 if register == "X" else 0x00
                 post_byte |= 0x20 if register == "Y" else 0x00
-                post_byte |= 0x40 if register == "U" else 0x00
+                post_byte |= 0x40 if register == "U" or register == "S" else 0x00
                 post_byte |= 0x80 if register == "PC" else 0x00
 
         if self.instruction.mnemonic == "EXG" or self.instruction.mnemonic == "TFR":
